@@ -23,10 +23,9 @@ import (
 // Two classes were open findings of the original tree and are repaired in /repo
 // (e1d256e: a zero-amount penalty did not reach the slash data; ec9154c:
 // replaySlashing read the chain head).  Their witnesses stay in the corpus;
-// a reappearance is an ordinary (unlisted) violation.
-
-// open finding: see /verif/fixes/C06_side_chain_fork_nil_parent_header.md
-const findSideNilParent = "side-chain import of a fork of two or more blocks that are not stored yet panics in checkAndUpgradeValidatorsToYouV5 (parent header not in the database)"
+// a reappearance is an ordinary (unlisted) violation.  The same holds for the
+// side-chain crash repaired by 599b875 (a fork of two or more blocks that were
+// not stored yet panicked in checkAndUpgradeValidatorsToYouV5; corpus w3).
 
 // open finding: see /verif/fixes/C06_side_chain_pending_txs_need_canonical_index.md
 const findSidePendingTxs = "side-chain verification cannot resolve the pending staking transactions of earlier fork blocks (processPendingTxs reads the canonical transaction lookup): a fork containing a staking transaction and the period end is refused"
@@ -443,10 +442,9 @@ func judge(h *History, obs []*BlockObs, crashed string, v *verdicts) {
 			switch {
 			case o.SideEErr == "":
 				v.counts["side_chain_"+o.SideEMode+"_accepted"]++
-			case o.SideEMode == "raw" && strings.Contains(o.SideEErr, "@checkAndUpgradeValidatorsToYouV5"):
-				v.counts["finding_side_chain_nil_parent"]++
-				add(&v.known, findSideNilParent, o, o.SideEErr)
-			case o.SideEMode == "stored" && !strings.HasPrefix(o.SideEErr, "panic"):
+			case !strings.HasPrefix(o.SideEErr, "panic"):
+				// node D accepted the same fork: the databases differ only in the
+				// transaction lookup entries of the fork's blocks
 				v.counts["finding_side_chain_pending_txs"]++
 				add(&v.known, findSidePendingTxs, o, o.SideEErr)
 			default:
